@@ -122,5 +122,43 @@ func main() {
 	f.Def("routeGuard", "List (String × Bool × Bool)", vlib.LeanList([]string{guard("/olla/proxy/"), guard("/olla/openai/"), guard("/olla/ollama/"),
 		guard("/olla/anthropic/v1/messages"), guard("/internal/health")}),
 		"(route pattern, registered, IsProxy — WireUpWithSecurityChain mounts the chain on IsProxy routes only)")
+	// config.Load: which networks end up trusted, for a file that lists some and an optional environment override.
+	// (what the rate limiter consults is the parsed cache, what an operator sees is the textual list)
+	strs := func(xs []string) string {
+		q := make([]string, len(xs))
+		for i, x := range xs {
+			q[i] = vlib.LeanStr(x)
+		}
+		return vlib.LeanList(q)
+	}
+	var rows []string
+	for _, fileList := range [][]string{{"10.0.0.0/8"}, {"127.0.0.0/8", "10.0.0.0/8"}, {"0.0.0.0/0"}, {"192.168.0.0/16", "172.16.0.0/12", "10.0.0.0/8"}} {
+		for _, envList := range [][]string{nil, {"10.20.30.40/32"}, {"10.0.0.0/8"}, {"192.168.0.0/16", "172.16.0.0/12"}} {
+			tmp, err := os.CreateTemp("", "gen-security-*.yaml")
+			if err != nil {
+				fmt.Fprintln(os.Stderr, "gen_security:", err)
+				os.Exit(1)
+			}
+			fmt.Fprintf(tmp, "server:\n  rate_limits:\n    trust_proxy_headers: true\n    trusted_proxy_cidrs: [%s]\n", "\""+strings.Join(fileList, "\", \"")+"\"")
+			tmp.Close()
+			if envList != nil {
+				os.Setenv("OLLA_SERVER_TRUSTED_PROXY_CIDRS", strings.Join(envList, ","))
+			}
+			cfg, err := config.Load(tmp.Name())
+			os.Unsetenv("OLLA_SERVER_TRUSTED_PROXY_CIDRS")
+			os.Remove(tmp.Name())
+			if err != nil {
+				fmt.Fprintln(os.Stderr, "gen_security: config.Load:", err)
+				os.Exit(1)
+			}
+			var parsed []string
+			for _, n := range cfg.Server.RateLimits.TrustedProxyCIDRsParsed {
+				parsed = append(parsed, n.String())
+			}
+			rows = append(rows, vlib.LeanTuple(strs(fileList), strs(envList), strs(cfg.Server.RateLimits.TrustedProxyCIDRs), strs(parsed)))
+		}
+	}
+	f.Def("trustedProxies", "List (List String × List String × List String × List String)", vlib.LeanList(rows),
+		"config.Load: (trusted_proxy_cidrs in the file, OLLA_SERVER_TRUSTED_PROXY_CIDRS or [] if unset, the textual list in the loaded configuration, the parsed networks the rate limiter consults)")
 	f.Write(ns)
 }
